@@ -28,28 +28,44 @@ Fixpoint points_eqb (names : list bytes) (ms : list (bytes * image)) (os : list 
   | _, _ => false
   end.
 
-Fixpoint dcheck_segment (names : list bytes) (d : dstate) (i : N) (cs : list call) (obs : list dobs) : dstate * option N :=
+(* returns the state after the segment, the crash-point images of its LAST request, the verdict *)
+Fixpoint dcheck_segment (names : list bytes) (d : dstate) (i : N) (last : list (bytes * image)) (cs : list call) (obs : list dobs)
+  : dstate * list (bytes * image) * option N :=
   match cs, obs with
-  | [], [] => (d, None)
+  | [], [] => (d, last, None)
   | c :: cs', (r, pts, after) :: obs' =>
       let '(d1, rsp, mpts) := dstep d c in
       if resp_eqb rsp r && points_eqb names mpts pts && resps_eqb (probe (restart (image_of d1)) names) after
-      then dcheck_segment names d1 (i + 1)%N cs' obs'
-      else (d1, Some i)
-  | _, _ => (d, Some i)
+      then dcheck_segment names d1 (i + 1)%N mpts cs' obs'
+      else (d1, mpts, Some i)
+  | _, _ => (d, last, Some i)
   end.
 
-(* a case: table names to probe, and segments (request list + observations); between two segments the
-   real server is stopped and a new one started on the same directory *)
-Definition dcase : Type := list bytes * list (list call * list dobs).
+(* the state the next segment's server starts in: normally the directory as the stopped server left
+   it; with a crash marker the server was killed inside the segment's last request at the (first)
+   crash point of that name, and the next server starts on the image taken there *)
+Definition next_boot (d1 : dstate) (last : list (bytes * image)) (crash : option bytes) : dstate :=
+  match crash with
+  | None => boot (image_of d1)
+  | Some p => match find (fun q => beqb (fst q) p) last with
+              | Some q => boot (snd q)
+              | None => boot (image_of d1)
+              end
+  end.
 
-Fixpoint dcheck_segments (names : list bytes) (d : dstate) (base : N) (segs : list (list call * list dobs)) : option N :=
+(* a case: table names to probe, and segments (request list + observations + crash marker); between
+   two segments the real server is stopped (or killed at the marked point) and a new one started on
+   the directory (on the image taken at that point) *)
+Definition dseg : Type := list call * list dobs * option bytes.
+Definition dcase : Type := list bytes * list dseg.
+
+Fixpoint dcheck_segments (names : list bytes) (d : dstate) (base : N) (segs : list dseg) : option N :=
   match segs with
   | [] => None
-  | (cs, obs) :: rest =>
-      match dcheck_segment names d base cs obs with
-      | (_, Some k) => Some k
-      | (d1, None) => dcheck_segments names (boot (image_of d1)) (base + N.of_nat (length cs))%N rest
+  | (cs, obs, crash) :: rest =>
+      match dcheck_segment names d base [] cs obs with
+      | (_, _, Some k) => Some k
+      | (d1, last, None) => dcheck_segments names (next_boot d1 last crash) (base + N.of_nat (length cs))%N rest
       end
   end.
 
@@ -97,12 +113,25 @@ Fixpoint doracle_segment (names : list bytes) (d : dstate) (prev : list bresp) (
   | _, _ => (d, prev, [])
   end.
 
-Fixpoint doracle_segments (names : list bytes) (d : dstate) (prev : list bresp) (base : N) (segs : list (list call * list dobs)) : list (N * N) :=
+(* the observed probes of the crash point the segment was killed at (the "before" of what follows) *)
+Definition crash_prev (obs : list dobs) (crash : option bytes) (dflt : list bresp) : list bresp :=
+  match crash, rev obs with
+  | Some p, (_, pts, _) :: _ => match find (fun q => beqb (fst q) p) pts with Some q => snd q | None => dflt end
+  | _, _ => dflt
+  end.
+
+Definition last_points (d : dstate) (cs : list call) : list (bytes * image) :=
+  match rev (snd (drun d cs)) with
+  | (_, pts) :: _ => pts
+  | [] => []
+  end.
+
+Fixpoint doracle_segments (names : list bytes) (d : dstate) (prev : list bresp) (base : N) (segs : list dseg) : list (N * N) :=
   match segs with
   | [] => []
-  | (cs, obs) :: rest =>
+  | (cs, obs, crash) :: rest =>
       let '(d1, last, bad) := doracle_segment names d prev base cs obs in
-      bad ++ doracle_segments names (boot (image_of d1)) last (base + N.of_nat (length cs))%N rest
+      bad ++ doracle_segments names (next_boot d1 (last_points d cs) crash) (crash_prev obs crash last) (base + N.of_nat (length cs))%N rest
   end.
 
 Definition oracle_dcase (c : dcase) : list (N * N) :=
